@@ -150,6 +150,7 @@ def run_shard(ctx: Ctx, acc: Acc):
                 bad = vio
                 break
         # evidence about what the monitor saw
+        acc.count("trace-events", len(drv.trace))
         ids = drv.ids_returned
         if ids:
             acc.count("ids-checked", len(ids))
